@@ -44,6 +44,13 @@ def parseBitsList (s : String) : List Float :=
     | some n => some (Float.ofBits (UInt64.ofNat n))
     | none => none
 
+/-- float vectors (`esl_rnd_FChoose`, `FChooseCDF`): every p[i] is promoted to double before use -/
+def parseF32List (s : String) : List Float :=
+  (s.splitOn ",").filterMap fun w =>
+    match (w.toList.foldl (fun acc c => acc.bind fun a => (hexVal c).map fun d => a * 16 + d) (some 0)) with
+    | some n => some (Float32.ofBits (UInt32.ofNat n)).toFloat
+    | none => none
+
 def dchooseCDF (roll : Float) (cdf : List Float) : Option Nat :=
   dchooseCDFgo roll (cdf.getLastD 0.0) cdf 0
 
@@ -97,6 +104,22 @@ def step (s : S) (line : String) : S × String :=
     match dchoose (Float.ofNat x / 4294967296.0) p with
     | some i => ({ s with r := r }, s!"ok {i}")
     | none => ({ s with r := r }, "fatal")
+  | "fchoose" :: _ =>
+    let p := parseF32List ((arg? ws "p").getD "")
+    let (x, r) := s.r.randomNum
+    match dchoose (Float.ofNat x / 4294967296.0) p with
+    | some i => ({ s with r := r }, s!"ok {i}")
+    | none => ({ s with r := r }, "fatal")
+  | "fchoosecdf" :: _ =>
+    let p := parseF32List ((arg? ws "p").getD "")
+    let (x, r) := s.r.randomNum
+    match dchooseCDF (Float.ofNat x / 4294967296.0) p with
+    | some i => ({ s with r := r }, s!"ok {i}")
+    | none => ({ s with r := r }, "fatal")
+  | "pokeraw" :: _ =>
+    match argNat? ws "w" with
+    | some w => ({ s with r := s.r.pokeRaw (UInt32.ofNat w) }, "ok")
+    | none => (s, "bad-op")
   | "dchoosecdf" :: _ =>
     let p := parseBitsList ((arg? ws "p").getD "")
     let (x, r) := s.r.randomNum
